@@ -141,6 +141,22 @@ static const char* want_str(const Row& w)
     }
 }
 
+// NaN encodings: index 0 is the default quiet NaN of the rows
+template <class T>
+static int c12_nan_patterns() { return 8; }
+template <class T>
+static T c12_nan(int k)
+{
+    static const uint32_t f32[] = { 0x7fc00000u, 0xffc00000u, 0x7f800001u, 0x7fbfffffu, 0x7fffffffu, 0xff800001u, 0x7fc00001u, 0xffffffffu };
+    static const uint64_t f64[] = { 0x7ff8000000000000ull, 0xfff8000000000000ull, 0x7ff0000000000001ull, 0x7ff00000ffffffffull, 0xfff0000000000001ull, 0x7ff0000100000000ull, 0x7ff7ffffffffffffull, 0xffffffffffffffffull };
+    T r;
+    if (sizeof(T) == 4)
+        memcpy(&r, &f32[k % 8], 4);
+    else
+        memcpy(&r, &f64[k % 8], 8);
+    return r;
+}
+
 template <class T>
 static void c12_table(Context& cx)
 {
@@ -175,6 +191,19 @@ static void c12_table(Context& cx)
                     xs[pos] = (T)w.x;
                     ys[pos] = (T)w.y;
                 }
+                // "a NaN argument yields NaN" holds for every NaN encoding: quiet and signalling, either sign, payload in the
+                // high or only in the low bits (a guard that looks at part of the word misses some of them)
+                const int npv = (std::isnan(w.x) || std::isnan(w.y)) ? c12_nan_patterns<T>() : 1;
+                for (int pv = 0; pv < npv; ++pv)
+                {
+                if (pv > 0)
+                    for (int l = 0; l < n; ++l)
+                    {
+                        if (std::isnan(w.x) && std::isnan(xs[l]))
+                            xs[l] = c12_nan<T>(pv);
+                        if (std::isnan(w.y) && std::isnan(ys[l]))
+                            ys[l] = c12_nan<T>(pv);
+                    }
                 CallResult cr = call<T>(cx, tg, e, xs, binary ? ys : nullptr, out);
                 cx.st.evaluations++;
                 cx.st.lane_checks++;
@@ -191,6 +220,7 @@ static void c12_table(Context& cx)
                     if (!cx.has_violation(key))
                         cx.add_violation(v);
                 }
+                } // NaN encodings
             }
         }
     }
